@@ -6,6 +6,7 @@
    executor and the websocket layer are explored by the harness only.
    Only property theorems here: each is closed by [exact], its statement is
    pinned by [Check] and its assumptions are printed. *)
+From AG Require Import CrashRec CrashRecProofs.
 From AG Require Import Crash CrashProofs CursorProofs.
 From AGgen Require Import CrashConstGen.
 Open Scope Z_scope.
@@ -150,6 +151,29 @@ Check C12_upload_panic_iff : forall q nup v,
     upload_field q nup v = Panic <->
     (q_parse_unwrap q = true /\ upload_known_class nup v = 1%N) \/
     (q_value_index q = true /\ upload_known_class nup v = 2%N).
+(* ---- the recursion-depth walk that runs on every request before validation ---- *)
+(* measure argument: every recursive call raises the depth and the depth is
+   capped, so the walk needs at most maxd + 2 - cur stack frames on EVERY
+   document, whatever its fragment graph (cycles included) *)
+Theorem C12_recursion_walk_total : forall frags maxd fuel cur set,
+    (N.to_nat (maxd + 1 - cur) < fuel)%nat ->
+    rd_check frags 1%N maxd fuel cur set <> OutOfFuel.
+Proof. exact rd_check_total. Qed.
+
+(* check_recursive_depth answers every document: Ok or the depth error *)
+Theorem C12_recursion_walk_answers : forall maxd d,
+    rd_doc maxd d = Ok tt \/ exists e, rd_doc maxd d = Err e.
+Proof. exact rd_doc_answers. Qed.
+
+(* the increment on the spread arm is what bounds the walk: without it a
+   reachable fragment cycle recurses for every budget (= stack overflow) *)
+Theorem C12_recursion_needs_increment : forall f maxd fuel,
+    rd_check (self_cycle f) 0%N maxd fuel 0%N [SSpread f []] = OutOfFuel.
+Proof. exact rd_check_diverges_without_increment. Qed.
+
+Theorem C12_frag_check_no_gap : forall c, check_frag c <> 2%N.
+Proof. exact check_frag_no_gap. Qed.
+
 Check C12_no_panic_upload : forall q nup v, upload_known_class nup v = 0%N -> upload_field q nup v <> Panic.
 Check C12_string_value_total : forall s, string_content s -> exists v, string_value s = Ok v.
 Check C12_type_new_total : forall s, type_shape s -> exists t, type_new s = Ok t /\ print_ty t = s.
@@ -180,3 +204,7 @@ Print Assumptions C12_type_shape_recogniser_sound.
 Print Assumptions C12_exactly_one_panic_iff.
 Print Assumptions C12_checks_no_gap.
 Print Assumptions C12_nonvacuous.
+Print Assumptions C12_recursion_walk_total.
+Print Assumptions C12_recursion_walk_answers.
+Print Assumptions C12_recursion_needs_increment.
+Print Assumptions C12_frag_check_no_gap.
